@@ -1,3 +1,4 @@
+import IkeProofs.RefineSa.RandNum
 import IkeProofs.RefineEap.Crypto
 import IkeProofs.Theorems.C07
 import IkeProofs.RefineSa.Transfer
@@ -81,5 +82,24 @@ theorem C07_gen_refusals (P : Prims) (k : Gen.security.IKESAKey) (nonce secret :
     ((nonce = [] ∨ secret = []) → Gen.security.IKESAKey.GenerateKeyForIKESA P (some k) nonce secret si sr = .err) :=
   ⟨GenerateKeyForIKESA_nil P nonce secret si sr, fun h => GenerateKeyForIKESA_missing P k h nonce secret si sr,
    fun h => GenerateKeyForIKESA_empty P (some k) nonce secret h si sr⟩
+
+open Ike.RefineSa Ike.GenAbsSa in
+/-- the responder's entry point as translated: whatever `security.NewIKESAKey` returns without an error was keyed by
+`GenerateKeyForIKESA` — i.e. by the model's derivation (`C07_keys`: the RFC 7296 §2.14 key set) — from the nonces,
+the SPIs and the shared secret `peer^x mod p` of the proposal's group, for the exponent `x ∈ [2^128, 2^2048−1)` drawn
+in this call; the public value handed back is `g^x mod p` -/
+theorem C07_gen_newIkeSa_keys (P : Prims) (hP : P.Lawful) (r r' : Rand) (p : Proposal)
+    (td te ti tp : Transform) (hd : p.dh.head? = some td) (he : p.encr.head? = some te)
+    (hi : p.integ.head? = some ti) (hp : p.prf.head? = some tp)
+    (ke nonce : Bytes) (si sr : UInt64) (k' : Gen.security.IKESAKey) (pub : Bytes)
+    (h : Gen.security.NewIKESAKey P secG RefineReg.dhG RefineReg.encrG RefineReg.integG RefineReg.prfG r (some p)
+        ke nonce si sr = .ok (r', k', pub)) :
+    ∃ x : Nat, 2 ^ 128 ≤ x ∧ x < 2 ^ 2048 - 1 ∧
+      pub = dhPubFixed (RefineReg.absGroup (decDh td)) x ∧
+      genKeyForIKESA P (absSa (saOfTransforms td te ti tp)) nonce
+        (dhSharedFixed (RefineReg.absGroup (decDh td)) x (beNat ke)) si sr = (absSa k', .ok ()) := by
+  obtain ⟨_, _, _, _, _, _, _, _, x, _, h1, h2, _, h4, _, _, h7⟩ :=
+    NewIKESAKey_ok_wf P hP r r' p td te ti tp hd he hi hp ke nonce si sr k' pub h
+  exact ⟨x, h1, h2, h4, h7⟩
 
 end Ike
